@@ -2397,23 +2397,41 @@ class Parameters:
     def _update_ref(self_, name, ref=Undefined):
         """Link parameter name to ref, or end its link if no ref is given."""
         param_private = self_.self._param__private
-        if name in param_private.async_refs:
-            param_private.async_refs.pop(name).cancel()
-        for _, watcher in param_private.ref_watchers:
-            dep_obj = watcher.cls if watcher.inst is None else watcher.inst
-            dep_obj.param.unwatch(watcher)
-        self_.self._param__private.ref_watchers = []
-        refs = dict(self_.self._param__private.refs)
+        refs = dict(param_private.refs)
         if ref is Undefined:
             refs.pop(name, None)
         else:
             refs[name] = ref
-        deps = {
-            pname: resolve_ref(pref, recursive=self_[pname].nested_refs)
-            for pname, pref in refs.items()
-        }
+        # The watchers are shared by the references of the object, they are
+        # all set up again. What the references depend on is worked out
+        # first: one that cannot be resolved right now (a method depending on
+        # a sub-object that is missing for a moment) keeps the watchers it
+        # has; only the reference being installed may fail, before anything
+        # has changed.
+        deps, pending = {}, set()
+        for pname, pref in refs.items():
+            try:
+                deps[pname] = resolve_ref(pref, recursive=self_[pname].nested_refs)
+            except Exception:
+                if pname == name:
+                    raise
+                pending.add(pname)
+        if name in param_private.async_refs:
+            param_private.async_refs.pop(name).cancel()
+        kept = []
+        for refnames, watcher in param_private.ref_watchers:
+            if pending.intersection(refnames):
+                kept.append((refnames, watcher))
+                continue
+            dep_obj = watcher.cls if watcher.inst is None else watcher.inst
+            # (not there: a copy of an object following a class-level
+            # Parameter never had it)
+            if any(watcher in (_watcher_list(dep_obj, pname, watcher.what) or [])
+                   for pname in watcher.parameter_names):
+                dep_obj.param.unwatch(watcher)
+        param_private.ref_watchers = kept
         self_._setup_refs(deps)
-        self_.self._param__private.refs = refs
+        param_private.refs = refs
 
     def _sync_refs(self_, *events):
         updates = {}
